@@ -19,6 +19,16 @@ CLAIMED = {
    text="Unbounded Coq theorems over every frame (any bytes) and every history of reads and input attempts: one read either changes nothing and writes nothing or advances along exactly one edge of the activation sequence on the PDU that edge requires, writing exactly one confirm-active + finalization on the demand-active edge only; the state only moves along the sequence; a history ending inside the input window has a last font-map entry with no state change since; outside the window input is refused/dropped silently; writes never move the state; bitmap events only inside the window. The model (message interpreter Msg.v, layouts, Global.v) is tied to /repo on every run by replaying all histories up to length 3 (5 in thorough) over the 11-letter alphabet plus random longer ones, with an input attempt after every step, against the real RdpClient, and judging the implementation with an independent reference automaton and strict PDU decoder.",
    design_ref="DESIGN.md section 6, C12",
    note="Trusted: Coq kernel, extraction, OCaml driver, Rust harness + 3 cfg hooks, hand-written layouts/model validated by correspondence (not generated from source), gen/rdp.py reference encoders."),
+ "C11": dict(
+   technique="Coq proof (symbolic evaluation of the write path + induction over event sequences) of model output = reference encoding of MS-RDPBCGR input PDUs; model tied to /repo by differential correspondence and a strict python decoder of the frames the implementation emitted",
+   text="Unbounded Coq theorems: inside the window EVERY pointer/keyboard event (all x, y, scancodes in any range, every button, both press states, all user/channel/share ids) produces exactly one frame that is byte for byte the reference encoding (RefInput.v, written from MS-RDPBCGR 2.2.8.1.1.3 and T.125) of that event with the identifiers the server assigned, leaving the session unchanged; every sequence of events is transmitted one frame per event in submission order; unsendable event kinds are refused with UnexpectedType and nothing on the wire; arbitrary server traffic (any bytes) between writes changes the identifiers only through a demand-active's share id; the reference event encoding is decodable to exactly the submitted values. Tied to /repo by replaying event sequences interleaved with server PDUs against the real RdpClient (debug + release), diffing against the extracted model and decoding the implementation's frames with an independent strict decoder.",
+   design_ref="DESIGN.md section 6, C11",
+   note="Trusted: Coq kernel, extraction, OCaml driver, Rust harness + cfg hooks, hand-written layouts/model validated by correspondence (not generated from source), gen/c11.py strict decoder."),
+ "C06": dict(
+   technique="Coq proof: generic induction over the message interpreter (any layout passing the boolean checker `safe` is read without panic/spin and with bounded allocation from any bytes), provenance lemmas for nested PDUs, case analysis of the session glue in every state, induction over histories; model tied to /repo by differential correspondence under fault injection",
+   text="Unbounded Coq theorems, for both build profiles, every client state and session parameters and EVERY byte string: one read of one frame (deframing, X.224, MCS, share control/data dispatch, demand-active with capability sets, finalization PDUs, batched data PDUs, fast-path updates with bitmap rectangles) returns a value or an error, never Panic (= any unwrap/index/slice/map lookup/overflow trap/capacity overflow, each an explicit branch of the model) and never Spin; the same along every history of hostile frames interleaved with input attempts; every buffer any of the 28 session-path templates sizes from the wire is at most 65535 bytes. The per-layout obligations are discharged by computation of the checker, so a changed layout re-decides them. Tied to /repo by ~87000 fault-injected frames per profile in the quick tier (every state x every PDU kind x byte/u16 field faults, truncations, extensions, header faults, short strings, random corruption, long runs of ignored frames), each followed by a valid frame and an input attempt, outcome and largest single allocation compared with the extracted model.",
+   design_ref="DESIGN.md section 6, C05-C07",
+   note="Trusted: Coq kernel (+vm_compute for per-layout checker obligations and two symbolic write evaluations), extraction, OCaml driver, Rust harness + cfg hooks + counting allocator; layouts hand-written and validated by correspondence; whole frames are delivered (fragmentation is C13); 'out of proportion' = no single allocation above the 16-bit frame bound (model) / 2*65536+4096 (measured, Vec growth doubling)."),
 }
 
 NOT_YET = {}
